@@ -50,6 +50,16 @@ def r1_no_lossy(ctx):
                     if r is not None and r[0] == "call" and name_is(r[2], "ok_or") and call_is(r[3][0], "decode_without_bom_handling_and_without_replacement") and r[3][1][0] == "agg" and r[3][1][2] == "Other":
                         ok = True
                 ctx.ob("R1", "decode", ok, "decode() = decode_without_bom_handling_and_without_replacement(..).ok_or(EncodingError::Other)", config=cfg)
+                # every returning path decodes with the encoding it was given; a shortcut is only sound under `encoding == UTF_8`
+                for p in ctx.paths(b):
+                    r = ret_of(p)
+                    if r is None:
+                        continue
+                    through = has_subterm(r, lambda s: call_is(s, "decode_without_bom_handling_and_without_replacement") and strip_wrappers(s[3][0])[0] == "arg" and strip_wrappers(s[3][0])[2] == "encoding")
+                    utf8 = any(e[0] == "switch" and e[2][0] == "call" and name_is(e[2][2], "eq", "ne") and "UTF_8" in str(e[2]) and ((e[3] != 0) == name_is(e[2][2], "eq")) for e in p)
+                    if not through:
+                        ctx.ob("R1", "decode:shortcut", utf8 and describe_ret(r, 0)[0][:1] in (("Ok",), ("Err",)),
+                               "a path of decode() returns %s without running the decoder of the given encoding; bytes that merely look like UTF-8 are different text in another encoding, so a shortcut is only sound when encoding == UTF_8" % sym.show(r, 3)[:120], config=cfg)
             b = ctx.body(F, "encoding::decode_into", "R1")
             if b is not None:
                 mal = 0
